@@ -24,6 +24,9 @@ var verifHarnesses = map[string]func(){
 	"VerifErrDecimal":    VerifErrDecimal,
 	"VerifModes":         VerifModes,
 	"VerifRelations":     VerifRelations,
+	"VerifParse":         VerifParse,
+	"VerifFormat":        VerifFormat,
+	"VerifFormatFlags":   VerifFormatFlags,
 	"VerifDivInt":        VerifDivInt,
 	"VerifCmp":           VerifCmp,
 	"VerifQuantize":      VerifQuantize,
